@@ -123,7 +123,14 @@ func ruleOneReader(c *Ctx) {
 		if fn == nil {
 			continue
 		}
-		c.check(len(callsTo(fn, parseNumber)) > 0, R, "via-parseNumber:"+name, p.pos(fn.Pos()), "converts numerals through parseNumber", name+" does not convert numerals through parseNumber")
+		via := len(callsTo(fn, parseNumber)) > 0
+		// …possibly through a shared conversion helper of the package (argNumber)
+		allInstrs(fn, func(in ssa.Instruction) {
+			if sc := staticCallee(in); sc != nil && sc.Pkg != nil && sc.Pkg.Pkg.Path() == luaPath && sc.Blocks != nil && len(callsTo(sc, parseNumber)) > 0 {
+				via = true
+			}
+		})
+		c.check(via, R, "via-parseNumber:"+name, p.pos(fn.Pos()), "converts numerals through parseNumber", name+" does not convert numerals through parseNumber")
 	}
 	// compiler: reader error must raise
 	for _, name := range []string{"compileExpr", "lnumberValue"} {
